@@ -28,6 +28,11 @@ CHECKS = {
                                {"file": "ring/replication_set_tracker.go", "rewrite": ['"sync"', '"go.uber.org/atomic"', '"math/rand"']}])]},
     "C14": {"parts": [P("instance-ranges", "./c14", "^TestC14Instances$"), P("partition-ranges", "./c14", "^TestC14Partitions$")]},
     "C16": {"parts": [P("random-generator", "./c16", "^TestC16Random$"), P("spread-minimizing", "./c16", "^TestC16SpreadMinimizing$")]},
+    "C18": {"parts": [P("init-order", "./c18", "^TestC18Init$"), P("cycle-rejection", "./c18", "^TestC18Cycles$"),
+                      P("runtime-order", "./c18", "^TestC18Runtime$", shards={"quick": 12, "thorough": 14}, budget={"quick": 200, "thorough": 1200}, gomaxprocs=1,
+                        overlay=[{"file": "modules/module_service.go", "rewrite": [], "add_imports": ['"verif/shim/maporder"'],
+                                  "subst": [["for m, s := range startDeps {", "for _, m := range maporder.Keys(startDeps) {\n\t\ts := startDeps[m]"],
+                                            ["for n, s := range stopDeps {", "for _, n := range maporder.Keys(stopDeps) {\n\t\ts := stopDeps[n]"]]}])]},
     "C19": {"parts": [P("wrappers", "./c19", "^TestC19Wrappers$"), P("jump-hash", "./c19", "^TestC19JumpHash$")]},
     "C20": {"parts": [P("validation", "./c20", "^TestC20Validation$"), P("propagation", "./c20", "^TestC20Propagation$")]},
     "C15": {"parts": [P("routing", "./c15", "^TestC15Routing$"), P("replication-sets", "./c15", "^TestC15ReplicationSets$")]},
